@@ -647,7 +647,11 @@ func vC20GenPunchSpec(t *rapid.T, allowDamage bool) vC20PunchSpec {
 	var s vC20PunchSpec
 	switch rapid.IntRange(0, 9).Draw(t, "ptype") {
 	case 0:
-		s.typ = rapid.SampledFrom([]byte{0x00, 0x03, 0x04, 0x81, 0xff}).Draw(t, "badtype")
+		if rapid.Bool().Draw(t, "badtypeCorner") {
+			s.typ = rapid.SampledFrom([]byte{0x00, 0x03, 0x04, 0x81, 0xff}).Draw(t, "badtype")
+		} else {
+			s.typ = byte(rapid.IntRange(3, 255).Draw(t, "badtype"))
+		}
 	case 1, 2, 3, 4:
 		s.typ = vC20Ack
 	default:
